@@ -138,7 +138,8 @@ def libSend (st : St) (e : LibSend) : St × List Out × Bool :=
   | some lib' => ({ st with lib := lib' }, [.libSend e true] ++ (match e with | .data [] => [] | _ => [.upRaw 0]), false)
   | none =>
     let lib' := H11M.sendFailed st.lib
-    ({ st with lib := lib' }, [.libSend e false], lib'.client != .error)    -- `if their_state != ERROR: raise`
+    -- `errored = our_state is ERROR` before the call; `if their_state != ERROR and not errored: raise`
+    ({ st with lib := lib' }, [.libSend e false], lib'.client != .error && st.lib.server != .error)
 
 /-- `_close_stream` -/
 def closeStream (st : St) : St × List Out :=
